@@ -98,6 +98,8 @@ def fragmentGo (m : PMol) :
     let maps := maps ++ [{ index := (derived.length : Int) - 1 + attrIndex, token := token,
                            attribution := (m.atomAttr[curr]?).getD none }]
     let out ← getOut m curr
+    -- ring bonds first (stable), then the non-ring bonds
+    let out := out.filter (·.ring) ++ out.filter (fun b => !b.ring)
     fragmentGo m fuel depth (.bondLoop out 0 out.length none) derived maps attrIndex
   | fuel + 1, depth, .bondLoop [] _ _ next, derived, maps, attrIndex =>
     -- end of chain: `(not out_bonds) or out_bonds[-1].ring_bond`
